@@ -99,7 +99,7 @@ def eq_terms(a, e, tol=None):
     return [eq_term(x, y, tol) for x, y in zip(fa, fe)]
 
 
-def check_all(ctx, actual, expected, tol=None, known=None, only=None):
+def check_all(ctx, actual, expected, tol=None, known=None, only=None, groups=None):
     """one obligation per key of `expected`"""
     ok = True
     for k in expected:
@@ -111,7 +111,7 @@ def check_all(ctx, actual, expected, tol=None, known=None, only=None):
             continue
         terms = eq_terms(actual[k], expected[k], tol[k] if isinstance(tol, dict) and k in tol else (tol if not isinstance(tol, dict) else None))
         kn = known.get(k) if isinstance(known, dict) and known and k in known else None
-        if not ctx.check(k, terms, known=kn):
+        if not ctx.check(k, terms, known=kn, group=groups(k) if groups else None):
             ok = False
     return ok
 
@@ -236,11 +236,11 @@ def validate(ctx, body, inputs, kwargs, actual_sym, tol=1e-6, every=1):
         ctx.stats.validation_mismatch += 1
 
 
-def run_body(ctx, body, inputs, kwargs, tol=None, known=None, validate_every=1, only=None):
+def run_body(ctx, body, inputs, kwargs, tol=None, known=None, validate_every=1, only=None, groups=None):
     """standard case flow: register inputs, run, check, validate"""
     ctx.set_inputs(**inputs)
     actual, expected = body(inputs, **kwargs)
-    check_all(ctx, actual, expected, tol=tol, known=known, only=only)
+    check_all(ctx, actual, expected, tol=tol, known=known, only=only, groups=groups)
     if validate_every:
         validate(ctx, body, inputs, kwargs, actual, every=validate_every)
     return actual, expected
